@@ -368,7 +368,9 @@ func runC13(c *checker, r *rng.R) {
 			}
 			c13Case(c, "frame", 0, legacy)
 		}
-		for _, et := range wv.AllTypes {
+		// element types: the defined ones, and codes the protocol does not define (a reader that
+		// learns to step over a new code must not do so one element at a time for a declared count)
+		for _, et := range append(append([]byte{}, wv.AllTypes...), 0, 1, 5, 7, 9, 16, 17, 18, 32, 127, 128, 255) {
 			lst := append([]byte{et}, put32(make([]byte, 4), 0, L)...)
 			lst = append(lst, 0, 0, 0, 0, 0, 0, 0, 0, 0)
 			for _, t := range []byte{wv.TList, wv.TSet} {
@@ -390,7 +392,7 @@ func runC13(c *checker, r *rng.R) {
 		}
 	}
 	c.flushCost()
-	c.rep.Rule = "messages ≤ 64 bytes (random structs, optionally enveloped strict/legacy) with every 4-byte length/count position set to each of {2^16, 2^20-1, 2^20, 2^20+1, 2^24, 2^27, 2^31-1, 0xffffffff, 0x80000000}; top-level containers of every element type; envelope name length; frame length × APIs {stream primitives, Skip, Decode+EvaluateValue, ReadEnvelopeBegin, DecodeEnveloped, DecodeRequest, ReadRequest, frame reader}; measured = runtime TotalAlloc delta; every case non-trivial; distinct by (api, bytes)"
+	c.rep.Rule = "messages ≤ 64 bytes (random structs, optionally enveloped strict/legacy) with every 4-byte length/count position set to each of {2^16, 2^20-1, 2^20, 2^20+1, 2^24, 2^27, 2^31-1, 0xffffffff, 0x80000000}; top-level containers of every element type (the 11 defined codes and 12 undefined ones); envelope name length; frame length × APIs {stream primitives, Skip, Decode+EvaluateValue, ReadEnvelopeBegin, DecodeEnveloped, DecodeRequest, ReadRequest, frame reader}; measured = runtime TotalAlloc delta; every case non-trivial; distinct by (api, bytes)"
 	_ = strings.TrimSpace
 }
 
